@@ -19,7 +19,7 @@ CONFIGS_THOROUGH = {"hash0": {"PYTHONHASHSEED": "0"}, "hash1": {"PYTHONHASHSEED"
 ID = "C03"
 RULE = ("generated fragment-F domains with unconditional, conditional (when) and universally quantified (forall-when) "
         "discrete and numeric effects x states (also large values, and facts additionally stored under their arguments' own "
-        "subtypes as earlier add effects leave them) x type-correct calls, restricted to calls the reference finds "
+        "subtypes as earlier add effects leave them, and empty entries for predicates without facts as delete effects leave them) x type-correct calls, restricted to calls the reference finds "
         "applicable and whose simultaneously firing effects are consistent (others counted as skipped); every case is "
         "applied under the natural order and under drawn permutations of the lifted and grounded effect collections "
         "and of the object table (every other permuted run passes allow_inapplicable_actions=True, which must not matter for an applicable action; the first permuted run and every third natural run apply the Operator object a second time).  Non-trivial = the action has a conditional or quantified effect whose condition is "
@@ -120,6 +120,9 @@ def check_case(case):
                 res.skips.append("inapplicable")
                 continue
             exp = pddl.successor(a["eff"], env, st, world)
+            if pddl.cancellation_in_effects(a["eff"], env, st, world):
+                res.skips.append("cancellation-beyond-float-precision")
+                continue
         except (pddl.Undefined, pddl.Ambiguous, pddl.Conflict) as e:
             res.skips.append(type(e).__name__)
             continue
@@ -147,7 +150,7 @@ def check_case(case):
                 state = ps[1]
             else:
                 # odd probes: facts also stored under their arguments' own (sub)types, as earlier add effects leave them
-                state = build_state(domain, world, st, variants=(i % 2 == 1))
+                state = build_state(domain, world, st, variants=(i % 2 == 1), empty_groups=(i % 3 == 0 or k == 1))
             # the action is applicable: allow_inapplicable_actions must make no difference (every other schedule)
             warm = build_state(domain, world, st) if (k == 0 or (k is None and i % 3 == 2)) else None
             ok2, got = lib_apply(domain, a["name"], pr["args"], objs, state, ints, k, allow=(k is not None and k % 2 == 1), warm_state=warm)
@@ -178,7 +181,7 @@ def check_case(case):
 
 
 def gen(ch, tier):
-    ft = G.feats(max_leaves=2, forall_pre=False, nested=ch.flag(0.3), max_actions=1, p_when=0.7, p_forall_eff=0.5, p_long_number=0.1, long_decimals=6, p_big_values=0.1)
+    ft = G.feats(max_leaves=2, forall_pre=False, nested=ch.flag(0.3), max_actions=1, p_when=0.7, p_forall_eff=0.5, p_long_number=0.1, long_decimals=6, p_big_values=0.1, p_shadow=0.1)
     return S.gen_sem_case(ch, tier, ft, n_probes=8, force=0.85, same_action=True)
 
 
